@@ -754,6 +754,39 @@ def rule_r7(chk, prog):
                   'the golden stream only in line terminators is accepted '
                   'where equality is documented', loc=m.loc(c),
                   nontrivial=True)
+        # both streams are captured, whatever the options say
+        for stream in ('stdout', 'stderr'):
+            v = kws.get(stream)
+            vals = []
+            if v is not None:
+                ev = expand_locals(f, v)
+                work = [ev]
+                while work:
+                    x = work.pop()
+                    if isinstance(x, ast.IfExp):
+                        work += [x.body, x.orelse]
+                    elif isinstance(x, ast.Name):
+                        ds = [st.value for st in ast.walk(f) if isinstance(
+                            st, ast.Assign) and any(
+                                isinstance(t, ast.Name) and t.id == x.id
+                                for t in st.targets)]
+                        if ds:
+                            work += ds
+                        else:
+                            vals.append(unparse(x))
+                    else:
+                        vals.append(unparse(x))
+            ok = bool(vals) and all(t in ('subprocess.PIPE', 'PIPE')
+                                    for t in vals)
+            chk.check('C09.R7', 'checker.execute', f'{stream} captured: '
+                      f'{unparse(c)[:40]}', ok,
+                      f'{stream} of the command is '
+                      f'{sorted(set(vals)) or "not redirected"}, not always '
+                      'a pipe: what is compared with the golden stream is '
+                      'then not what the command wrote (execute() also runs '
+                      'the cross-check command and both golden runs, which '
+                      'have their own --ignore-output / --match options)',
+                      loc=m.loc(c), nontrivial=True)
     chk.floor('C09.R7', 'Popen call sites', n, 1)
     # the record of a finished run
     comm = None
